@@ -151,9 +151,6 @@ pub fn corrupt_stream(s: &mut Stream, rng: &mut Rng) -> &'static str {
         "excess_padding" => {
             let p = s.packet_mut(idx);
             p.padding = rng.range(16, 40) as usize;
-            if p.rdh.data_format == 0 {
-                p.rdh.data_format = 2;
-            }
             p.fix_sizes();
         }
         _ => {}
